@@ -23,7 +23,7 @@ class Contract:
                  modifies=(), loops=None, callees=None, returns=None,
                  consts=None, facts=(), decreases=None, ghosts=None,
                  inline=(), notes='', replay=None, prop=None, trusted=False,
-                 self_cls=None, cover=True, max_paths=400, opaque=(), kinds=None, label=None):
+                 self_cls=None, cover=True, max_paths=400, opaque=(), kinds=None, label=None, abstract_regex=None):
         self.key = key
         self.params = dict(params or {})
         self.requires = list(requires)
@@ -48,7 +48,8 @@ class Contract:
         self.max_paths = max_paths
         self.opaque = list(opaque)
         self.kinds = dict(kinds or {})     # name -> element kind(s) of empty list/dict literals assigned to it
-        self.label = label             # callee names treated as no-ops (logging)
+        self.label = label
+        self.abstract_regex = dict(abstract_regex or {})   # pattern text -> name (kept uninterpreted)             # callee names treated as no-ops (logging)
 
     @property
     def oname(self):
